@@ -65,6 +65,17 @@ class Backend(object):
         S.r = int(r)
         return S
 
+    def freeze(self, obj):
+        """mark the arrays of a library object read-only (a constant the caller does not want written to); numpy only."""
+        for a in ("g", "gs", "ps", "cs"):
+            v = getattr(obj, a, None)
+            if isinstance(v, np.ndarray):
+                if not v.flags.owndata:
+                    v = v.copy()
+                    setattr(obj, a, v)
+                v.flags.writeable = False
+        return obj
+
     # --- readers
     def gp(self, P):
         return self.np(P.g), int(self.ph(P.p))
